@@ -6,11 +6,25 @@ import (
 	"os"
 	"path/filepath"
 	"strings"
+	"testing"
 	"time"
 )
 
 func c13Record(in c13Input, workdir string, tags []string) (Record, *c13Case) {
-	c, panicky := c13RunHist(in, workdir)
+	if in.Kind == "fcfile" {
+		return c13FcFile(in, workdir, tags), nil
+	}
+	var c *c13Case
+	var panicky string
+	if in.Kind == "slow" && c13T != nil {
+		// virtual time: the slow Cache.Write sleeps seconds to minutes, the store is created in the bubble
+		bubble(c13T, func(*testing.T) { c, panicky = c13RunHist(in, workdir) })
+		if c == nil {
+			c, panicky = &c13Case{tbl: newC13B64()}, "the synctest bubble did not complete"
+		}
+	} else {
+		c, panicky = c13RunHist(in, workdir)
+	}
 	kb, _ := json.Marshal(in)
 	nwrites := 0
 	if c.Cons.HasW {
@@ -49,6 +63,16 @@ func c13Record(in c13Input, workdir string, tags []string) (Record, *c13Case) {
 		}
 		if wf {
 			rec.Tags = append(rec.Tags, "hist-write-fails")
+		}
+	case "slow":
+		if c.Slow != nil {
+			rec.Nontrivial = len(c.Slow.Offered) >= 3
+			obs["offered"], obs["landed"] = len(c.Slow.Offered), len(c.Slow.Landed)
+			var mx int64
+			for _, op := range in.Ops {
+				mx = max(mx, op.SlowSecs)
+			}
+			rec.Tags = append(rec.Tags, fmt.Sprintf("slow-max%ds", mx))
 		}
 	case "conc":
 		if c.Conc != nil {
@@ -154,6 +178,20 @@ func c13SelfTests(rec Record, c *c13Case) []Record {
 		cc.Conc = &n
 		return true
 	})
+	alter("a stale document landing last", func(cc *c13Case) bool {
+		if cc.Slow == nil || len(cc.Slow.Landed) < 2 {
+			return false
+		}
+		n := *cc.Slow
+		n.Landed = append([]*c13J{}, cc.Slow.Landed...)
+		k := len(n.Landed)
+		if string(n.Landed[k-1].Bytes()) == string(n.Landed[k-2].Bytes()) {
+			return false
+		}
+		n.Landed[k-1], n.Landed[k-2] = n.Landed[k-2], n.Landed[k-1]
+		cc.Slow = &n
+		return true
+	})
 	alter("an extra request at construction", func(cc *c13Case) bool {
 		cc.ConsReqs = append(append([]string{}, cc.ConsReqs...), "zz")
 		return true
@@ -195,9 +233,9 @@ func runC13(o Opts) {
 	nself := map[string]int{}
 	emit := func(in c13Input, tags []string, corpus string) {
 		switch in.Kind {
-		case "hist", "doc", "conc":
+		case "hist", "doc", "conc", "slow", "fcfile":
 			// the real store runs in a worker process: a crash or hang costs this one input only
-			want := corpus == "" && o.Replay == "" && ((in.Kind == "hist" && nself["hist"] < 4) || (in.Kind == "conc" && nself["conc"] < 2))
+			want := corpus == "" && o.Replay == "" && ((in.Kind == "hist" && nself["hist"] < 4) || (in.Kind == "conc" && nself["conc"] < 2) || (in.Kind == "slow" && nself["slow"] < 2))
 			recs := pool.do(c13Job{In: in, Tags: tags, Corpus: corpus, Self: want}, 30*time.Second)
 			id := out.n
 			out.Emit(recs[0])
@@ -246,12 +284,12 @@ func runC13(o Opts) {
 	for _, in := range readCorpus[c13Input](o.Corpus) {
 		emit(in, []string{"corpus"}, "corpus")
 	}
-	nh, nd, nb, nc := 400, 900, 150, 64
+	nh, nd, nb, nc, ns, nf := 400, 900, 150, 64, 60, 150
 	if o.Tier == "thorough" {
-		nh, nd, nb, nc = 3000, 8000, 1500, 400
+		nh, nd, nb, nc, ns, nf = 3000, 8000, 1500, 400, 600, 2000
 	}
 	if o.N > 0 {
-		nh, nd, nb, nc = o.N, o.N, o.N, o.N
+		nh, nd, nb, nc, ns, nf = o.N, o.N, o.N, o.N, o.N, o.N
 	}
 	r := NewRand(o.Seed, 13)
 	for i := 0; i < nh; i++ {
@@ -283,6 +321,14 @@ func runC13(o Opts) {
 			emit(v, []string{"hist-kth-write-fails"}, "")
 		}
 	}
+	// cache writes that take virtual seconds to minutes (synctest), then succeed
+	rs := NewRand(o.Seed, 1333)
+	for i := 0; i < ns; i++ {
+		emit(c13GenSlow(rs, i), nil, "")
+	}
+	// hand-written secrets files for the file client
+	rf := NewRand(o.Seed, 1334)
+	c13GenFcFiles(rf, nf, func(in c13Input, tags []string) { emit(in, tags, "") })
 	// concurrent calls with a held (slow) cache write
 	rc := NewRand(o.Seed, 1331)
 	for i := 0; i < nc; i++ {
